@@ -217,8 +217,7 @@ def check_delete(case, db, got, res):
     victims = [v for v in case["victims"] if v in got]
     if not victims:
         return
-    for v in victims:
-        db[v]                                   # looked up before the deletion
+    held = {v: db[v] for v in victims}         # looked up before the deletion; the objects are kept
     if case["delete_by"] == "features":
         db.delete([db[v] for v in victims], make_backup=False)
     else:
@@ -237,6 +236,16 @@ def check_delete(case, db, got, res):
             if k not in victims:
                 common.fail(res, case, "lookup_lost_after_delete",
                             "db[key] lost a feature that was not deleted", key=k, deleted=victims)
+    # db[feature] is a look-up by the feature's key like any other: a Feature object fetched before its row was
+    # deleted must not be handed back
+    for v, obj in held.items():
+        try:
+            g = db[obj]
+            common.fail(res, case, "deleted_feature_returned",
+                        "db[feature] returned a feature that was deleted (FeatureNotFoundError expected)",
+                        key=v, deleted=victims, observed=str(g), expected="FeatureNotFoundError", by="Feature object")
+        except gffutils.FeatureNotFoundError:
+            pass
 
 
 GTF_DEFAULT = [gen_db.gtf_line("chr1", "gene", 1, 100, "+", [("gene_id", ["G"])]),
